@@ -26,7 +26,7 @@ class BS:
         self.fin, self.inf = fin, bool(inf)
 
     def __eq__(self, o):
-        return self.fin == o.fin and self.inf == o.inf
+        return isinstance(o, BS) and self.fin == o.fin and self.inf == o.inf
 
     def __hash__(self):
         return hash((self.fin, self.inf))
